@@ -4,6 +4,7 @@ package main
 
 import (
 	"fmt"
+	"regexp"
 	"go/types"
 	"hash/fnv"
 	"sort"
@@ -92,7 +93,7 @@ func hashName(s string) string {
 }
 
 func isNamed(t types.Type, pkg, name string) bool {
-	n, ok := t.(*types.Named)
+	n, ok := types.Unalias(t).(*types.Named)
 	if !ok {
 		return false
 	}
@@ -123,6 +124,7 @@ func isByteSlice(t types.Type) bool {
 
 // SortOf maps a Go type to its SMT sort, registering datatypes on demand.
 func (r *Registry) SortOf(t types.Type) Sort {
+	t = types.Unalias(t)
 	key := types.TypeString(t, nil)
 	if s, ok := r.byType[key]; ok {
 		return s
@@ -198,6 +200,7 @@ func (r *Registry) sliceSort(es Sort) Sort {
 }
 
 func (r *Registry) structName(t types.Type) string {
+	t = types.Unalias(t)
 	if n, ok := t.(*types.Named); ok {
 		p := ""
 		if n.Obj().Pkg() != nil {
@@ -235,6 +238,7 @@ func (r *Registry) structSort(t types.Type, u *types.Struct) Sort {
 }
 
 func (r *Registry) StructInfoOf(t types.Type) *StructInfo {
+	t = types.Unalias(t)
 	u, ok := t.Underlying().(*types.Struct)
 	if !ok {
 		return nil
@@ -464,7 +468,7 @@ func (r *Registry) ZeroValue(t types.Type) string {
 		}
 		return "0"
 	case *types.Interface:
-		return "iface_nil"
+		return "(mk_iface 0 0)"
 	case *types.Slice:
 		if isByteSlice(t) {
 			return "bytes_nil"
@@ -472,7 +476,7 @@ func (r *Registry) ZeroValue(t types.Type) string {
 		s := r.SortOf(t)
 		return fmt.Sprintf("(mk_%s 0 0 0)", s)
 	case *types.Array:
-		return fmt.Sprintf("((as const %s) %s)", r.SortOf(t), r.ZeroValue(u.Elem()))
+		return r.ConstArray(SInt, r.SortOf(u.Elem()), r.ZeroValue(u.Elem()))
 	case *types.Struct:
 		si := r.StructInfoOf(t)
 		if si == nil {
@@ -504,4 +508,21 @@ func (r *Registry) UpdateField(si *StructInfo, base string, idx int, val string)
 		}
 	}
 	return fmt.Sprintf("(%s %s)", si.Ctor, strings.Join(parts, " "))
+}
+
+var literalRe = regexp.MustCompile(`^(true|false|[0-9]+|\(- [0-9]+\)|\(mk_iface 0 0\))$`)
+
+// ConstArray: an array that maps every index to zero. cvc5 only accepts `as const` with a value
+// literal; for other element sorts a named array with a defining axiom is used.
+func (r *Registry) ConstArray(idx, elem Sort, zero string) string {
+	as := ArrS(idx, elem)
+	if literalRe.MatchString(zero) {
+		return fmt.Sprintf("((as const %s) %s)", as, zero)
+	}
+	name := "zarr_" + sortTag(as) + "_" + hashName(zero)
+	if _, ok := r.globals[name]; !ok {
+		r.Global(name, as)
+		r.axioms = append(r.axioms, fmt.Sprintf("(assert (forall ((zi %s)) (! (= (select %s zi) %s) :pattern ((select %s zi)))))", idx, name, zero, name))
+	}
+	return name
 }
